@@ -314,6 +314,11 @@ pub fn brotli_c(data: &[u8]) -> Vec<u8> {
 }
 
 pub fn brotli_d(data: &[u8]) -> Result<Vec<u8>, String> {
+	// RFC 7932 reserves the window-size code 0010001; the "large window" extension uses it, the
+	// decoder of the brotli crate accepts it, a standard decoder does not
+	if data.first().map(|b| b & 0x7f) == Some(0x11) {
+		return Err("brotli: the stream uses the large-window extension, which is not RFC 7932".to_string());
+	}
 	let mut out = Vec::new();
 	let mut r = brotli::Decompressor::new(data, 4096);
 	r.read_to_end(&mut out).map_err(|e| format!("brotli: {e}"))?;
